@@ -122,6 +122,9 @@ func Remaining() time.Duration {
 	}
 	return time.Duration((*DeadlineS - time.Since(start).Seconds()) * float64(time.Second))
 }
+// RealNow is the wall clock (harness sources are rewritten onto a virtual clock; vlib is not).
+func RealNow() time.Time { return time.Now() }
+
 func DeadlineTime() time.Time {
 	if *DeadlineS <= 0 {
 		return time.Time{}
